@@ -301,7 +301,7 @@ def trace_origin(name: str, source: str, *, __all__: bool = False) -> _TraceResu
                 if alias.name != "*":
                     continue
 
-                if node.module in constants.PYTHON_311_STDLIB:
+                if node.module in constants.PYTHON_311_STDLIB and not node.level:
                     # Logic copied from _get_exports_list() in os.py from python3.12.0b2
                     module = __import__(node.module)
                     exports = getattr(
@@ -310,8 +310,8 @@ def trace_origin(name: str, source: str, *, __all__: bool = False) -> _TraceResu
                     if name in exports:
                         return _TraceResult(core.get_code(node, source), node.lineno, node)
 
-                if node.module is None:
-                    continue
+                if node.module is None or node.level:
+                    continue  # Relative imports cannot be traced from here
 
                 origin = _trace_module_source_file(node.module)
 
@@ -389,6 +389,17 @@ def get_undefined_variables(source: str) -> Set[str]:
     )
 
 
+def _is_traceable_star_import(node: ast.ImportFrom) -> bool:
+    if node.level or node.module is None:
+        return False
+
+    if node.module in constants.PYTHON_311_STDLIB:
+        return True
+
+    origin = _trace_module_source_file(node.module)
+    return origin in {"frozen", "built-in"} or (origin is not None and origin.endswith(".py"))
+
+
 @processing.fix
 def fix_starred_imports(source: str) -> str:
     """Replace starred imports with normal `from x import y, z` style imports."""
@@ -404,7 +415,11 @@ def fix_starred_imports(source: str) -> str:
 
     starred_import_name_mapping = collections.defaultdict(set)
 
-    template = tuple(core.filter_nodes(root.body, template))
+    # Starred imports that cannot be traced (relative imports, modules whose source is not
+    # found) may provide any of the names that are used, so they are left as they are.
+    template = tuple(
+        node for node in core.filter_nodes(root.body, template) if _is_traceable_star_import(node)
+    )
 
     if not template:
         return source
